@@ -338,7 +338,7 @@ pub fn run(ctx: &mut Ctx) {
     ctx.replay_known_and_regressions(&replay);
     let t = ctx.tier;
 
-    ctx.run_prop("valid", t.pick(4000, 200_000), valid_strategy, judge_case);
+    ctx.run_prop("valid", t.pick(40_000, 500_000), valid_strategy, judge_case);
 
     // (b)
     let mut cells = vec![];
@@ -371,7 +371,7 @@ pub fn run(ctx: &mut Ctx) {
         ["", " ", "\n", "\t \r\n", "  \x0b\x0c "].iter().map(|s| PhraseCase { phrase: s.to_string() }).collect();
     ctx.run_cases("blank", &blanks, judge_case);
 
-    ctx.run_prop("unknown", t.pick(2000, 50_000), unknown_strategy, judge_case);
+    ctx.run_prop("unknown", t.pick(20_000, 200_000), unknown_strategy, judge_case);
 
     crate::fuzz::run_for(ctx);
     for l in bip39::LENGTHS {
@@ -379,7 +379,7 @@ pub fn run(ctx: &mut Ctx) {
     }
     ctx.floor_abs("rejected-word-count", 35 * 2048);
     ctx.floor_abs("rejected-checksum", 5 * 1024);
-    ctx.floor_abs("rejected-unknown-word", t.pick(1500, 40_000));
+    ctx.floor_abs("rejected-unknown-word", t.pick(15_000, 150_000));
 }
 
 pub fn replay(sub: &str, case: &Value) -> Option<Verdict> {
